@@ -15,6 +15,7 @@ import (
 	"github.com/ipfs/go-unixfsnode/file"
 	dagpb "github.com/ipld/go-codec-dagpb"
 	"github.com/ipld/go-ipld-prime"
+	"github.com/ipld/go-ipld-prime/codec"
 	"github.com/ipld/go-ipld-prime/datamodel"
 	cidlink "github.com/ipld/go-ipld-prime/linking/cid"
 	basicnode "github.com/ipld/go-ipld-prime/node/basic"
@@ -52,6 +53,49 @@ func lsFor(s *store.Store) *ipld.LinkSystem {
 // lsReifying is the "global reification" configuration: every node the link
 // system loads is passed through unixfsnode.Reify (NodeReifier), so child
 // blocks reach the library already interpreted.
+// framingHeader is what lsFraming's raw codec puts in front of every block.
+var framingHeader = []byte("SEALED-v1..\n")
+
+// lsFraming: a link system whose raw codec is not the identity: every raw
+// block is stored with a 12-byte header in front (as a sealing / compressing
+// store would frame it) and read back without it. With the UnixFS reifiers.
+func lsFraming(s *store.Store) *ipld.LinkSystem {
+	ls := lsFor(s)
+	enc, dec := ls.EncoderChooser, ls.DecoderChooser
+	ls.EncoderChooser = func(lp datamodel.LinkPrototype) (codec.Encoder, error) {
+		e, err := enc(lp)
+		if err != nil {
+			return nil, err
+		}
+		if clp, ok := lp.(cidlink.LinkPrototype); ok && clp.Codec == cid.Raw {
+			return func(nd datamodel.Node, w io.Writer) error {
+				if _, err := w.Write(framingHeader); err != nil {
+					return err
+				}
+				return e(nd, w)
+			}, nil
+		}
+		return e, nil
+	}
+	ls.DecoderChooser = func(l datamodel.Link) (codec.Decoder, error) {
+		d, err := dec(l)
+		if err != nil {
+			return nil, err
+		}
+		if cl, ok := l.(cidlink.Link); ok && cl.Cid.Prefix().Codec == cid.Raw {
+			return func(na datamodel.NodeAssembler, r io.Reader) error {
+				hdr := make([]byte, len(framingHeader))
+				if _, err := io.ReadFull(r, hdr); err != nil {
+					return err
+				}
+				return d(na, r)
+			}, nil
+		}
+		return d, nil
+	}
+	return ls
+}
+
 func lsReifying(s *store.Store) *ipld.LinkSystem {
 	ls := lsFor(s)
 	ls.NodeReifier = unixfsnode.Reify
@@ -90,6 +134,12 @@ func openVia(how string, ls *ipld.LinkSystem, root ipld.Node) (ipld.Node, error)
 		return unixfsnode.Reify(ipld.LinkContext{Ctx: context.Background()}, root, ls)
 	case "unixfs", "unixfs-preload":
 		return ls.KnownReifiers[how](ipld.LinkContext{Ctx: context.Background()}, root, ls)
+	case "Reify/zero-linkcontext":
+		// the zero LinkContext (no context at all) is what LinkSystem.Load
+		// accepts and what this repository's own tests pass
+		return unixfsnode.Reify(ipld.LinkContext{}, root, ls)
+	case "unixfs/zero-linkcontext", "unixfs-preload/zero-linkcontext":
+		return ls.KnownReifiers[strings.TrimSuffix(how, "/zero-linkcontext")](ipld.LinkContext{}, root, ls)
 	}
 	return nil, fmt.Errorf("unknown opener %s", how)
 }
